@@ -596,33 +596,21 @@ func r085(c *Ctx, r *R) {
 	}
 	inverse("PinType", "String", "PinTypeFromString", map[string]bool{"BadType": true})
 	inverse("PinMode", "String", "PinModeFromString", nil)
-	// ipfsPinStatus2TrackerStatusMap covers every IPFSPinStatus constant
-	pkg := c.P.Pkg("api")
+	// IPFSPinStatus.ToTrackerStatus gives every IPFS pin status a tracker
+	// status (evaluated, so a lookup table and a switch are the same thing):
+	// an unlisted status would come out as 'undefined', which matches every
+	// filter. IPFSPinStatusBug is mapped to undefined on purpose.
 	ips := c.namedType(r, "api", "IPFSPinStatus")
-	if pkg != nil && ips != nil {
-		have := map[int64]bool{}
-		for _, f := range pkg.Syntax {
-			ast.Inspect(f, func(n ast.Node) bool {
-				vs, ok := n.(*ast.ValueSpec)
-				if !ok || len(vs.Names) != 1 || vs.Names[0].Name != "ipfsPinStatus2TrackerStatusMap" || len(vs.Values) != 1 {
-					return true
-				}
-				if cl, ok := vs.Values[0].(*ast.CompositeLit); ok {
-					for _, el := range cl.Elts {
-						if kv, ok := el.(*ast.KeyValueExpr); ok {
-							if v := constVal(pkg, kv.Key); v != nil {
-								iv, _ := constant.Int64Val(v)
-								have[iv] = true
-							}
-						}
-					}
-				}
-				return true
-			})
-		}
+	tts := c.P.Func("api", "IPFSPinStatus.ToTrackerStatus")
+	if ips != nil && tts != nil {
 		for _, k := range declaredConsts(ips) {
-			iv, _ := constant.Int64Val(k.Val())
-			r.Check(have[iv], "ipfs-status-map:"+k.Name(), k.Pos(), k.Name()+" has a tracker status", k.Name()+" has no entry in ipfsPinStatus2TrackerStatusMap: it maps to 'undefined', which matches every filter")
+			_, v, ok := ssaEval(tts, bindParams(tts, map[int]constant.Value{0: k.Val()}))
+			if !ok {
+				r.Und("ipfs-status-map:"+k.Name(), k.Pos(), "IPFSPinStatus.ToTrackerStatus(%s) could not be evaluated", k.Name())
+				continue
+			}
+			defined := constant.Sign(v) != 0 || k.Name() == "IPFSPinStatusBug"
+			r.Check(defined, "ipfs-status-map:"+k.Name(), k.Pos(), k.Name()+" has a tracker status", k.Name()+" has no tracker status: it maps to 'undefined', which matches every filter")
 		}
 	}
 }
